@@ -1230,3 +1230,187 @@ def rule_c12_structure(ctx, prog, rule="R13"):
         ok = ok and vs == {"Sturges", "FreedmanDiaconis"}
         ctx.ob("R13", "Auto::%s/dispatch" % m, ok, mb.where(), "each variant dispatches to its own %s()" % m if ok else
                "Auto::%s does not dispatch each variant to that variant's method" % m, what="Auto accessor dispatches to the wrong strategy")
+
+
+# ======================================================================================= C18 bulk = single (R13)
+
+def canon_expr(prog, body, e, depth=0):
+    """body-independent canonical form of an expression: call sites dropped, closures replaced by the canonical form of
+    what they return (with captures resolved in the enclosing body)"""
+    e = ds(e)
+    if not isinstance(e, tuple) or depth > 30:
+        return e
+    k = e[0]
+    if k == "param":
+        return ("param", e[1])
+    if k == "upvar":
+        pb, pe = up(prog, body, e)
+        return canon_expr(prog, pb, pe, depth + 1)
+    if k == "call":
+        return ("call", e[1], e[2], tuple(canon_expr(prog, body, a, depth + 1) for a in e[3]))
+    if k == "agg" and e[1] == "closure":
+        cb = prog.bodies.get(e[2])
+        if cb is None:
+            return ("closure?",)
+        return ("lambda", canon_expr(prog, cb, cb.return_expr(), depth + 1))
+    if k == "agg":
+        return ("agg", e[1], e[2], tuple(canon_expr(prog, body, a, depth + 1) for a in e[3]))
+    if k == "binop":
+        return ("binop", e[1], canon_expr(prog, body, e[2], depth + 1), canon_expr(prog, body, e[3], depth + 1))
+    if k in ("unop", "cast"):
+        return (k, e[1], canon_expr(prog, body, e[2], depth + 1)) + e[3:]
+    if k in ("field", "downcast", "discr"):
+        return (k, canon_expr(prog, body, e[1], depth + 1)) + e[2:]
+    if k == "index":
+        return ("index", canon_expr(prog, body, e[1], depth + 1), canon_expr(prog, body, e[2], depth + 1))
+    if k == "phi":
+        return ("phi", e[2])
+    if k == "const":
+        return e
+    return e
+
+
+def rule_c18_moments(ctx, prog, rule="R13"):
+    S = lambda n: prog.method("SummaryStatisticsExt", n)
+    cm, cms = S("central_moment"), S("central_moments")
+
+    def horner_sites(b):
+        out = []
+        for bb, t in b.calls():
+            if callee_name(t) == "horner_method":
+                a = b.call_arg_exprs(bb)
+                out.append((bb, a))
+        return out
+    h1, h2 = horner_sites(cm), horner_sites(cms)
+    ok = len(h1) == 1 and len(h2) == 1
+    if not ok:
+        ctx.ob(rule, "central_moment(s)/pipeline", False, cm.where(), "anchor not recognised: %d / %d horner_method sites" % (len(h1), len(h2)),
+               what="anchor not recognised")
+        return
+    (bb1, a1), (bb2, a2) = h1[0], h2[0]
+    c1 = canon_expr(prog, cm, a1[0])
+    c2 = canon_expr(prog, cms, a2[0])
+    corr1 = canon_expr(prog, cm, a1[1])
+    corr2 = canon_expr(prog, cms, a2[1])
+    # coefficients = central_moment_coefficients(M or M[..=k])
+    def coeff_input(c):
+        if isinstance(c, tuple) and c[0] == "call" and c[1] == "central_moment_coefficients":
+            x = c[3][0]
+            while isinstance(x, tuple) and x[0] == "call" and x[1] == "deref":
+                x = x[3][0]
+            return x
+        return None
+    m1, m2 = coeff_input(c1), coeff_input(c2)
+    prefix = None
+    if isinstance(m2, tuple) and m2[0] == "call" and m2[1] == "index" and isinstance(m2[3][1], tuple) and m2[3][1][0] == "agg" \
+            and m2[3][1][1] == "std::ops::RangeToInclusive":
+        prefix = m2[3][1][3][0]
+        m2 = m2[3][0]
+    same_m = m1 is not None and m1 == m2
+    ctx.ob(rule, "central_moment(s)/same-shifted-moments", same_m, cm.where(),
+           "both compute moments(self.mapv(|x| x − mean), order) with mean = self.mean().unwrap() (canonical forms equal)" if same_m else
+           "the raw-moment vectors differ: single `%s` vs bulk `%s`" % (fmt(m1)[:120] if m1 else None, fmt(m2)[:120] if m2 else None),
+           what="single and bulk central moments use different shifted moments")
+    ctx.ob(rule, "central_moment(s)/same-correction", corr1 == corr2 and corr1[0] == "call" and corr1[1] == "neg", cm.where(),
+           "both evaluate the polynomial at −shifted_moments[1]" if corr1 == corr2 else "correction terms differ", what="different correction term")
+    # bulk uses the prefix ..=k of the same vector, k the loop variable of 2..=order
+    pk = False
+    if prefix is not None:
+        p = prefix
+        while isinstance(p, tuple) and p[0] == "cast":
+            p = p[2]
+        pk = isinstance(p, tuple) and p[0] == "field" and p[2] == "0"   # (next(iter) as Some).0
+    ctx.ob(rule, "central_moments/prefix-per-k", pk, cms.where(), "coefficients for entry k are built from shifted_moments[..=k]" if pk else
+           "bulk coefficients are not built from the prefix ..=k of the shifted moments", what="bulk moment k uses the wrong moments")
+    tb = prog.tracked(cms)
+    try:
+        lp = T.Loop(tb)
+        it = lp.iterator()
+        rng = ds(it[2])
+        while rng[0] == "call" and rng[1] == "into_iter":
+            rng = ds(rng[3][0])
+        okr = rng[0] == "call" and rng[1] == "new" and "RangeInclusive" in rng[2] and ds(rng[3][0]) == ("const", "u16", 2) and ds(rng[3][1])[:2] == ("param", 2)
+        pushes = [pb for pb, t in tb.calls() if callee_name(t) == "push" and pb in lp.blocks]
+        okp = len(pushes) == 1 and ds(tb.call_arg_exprs(pushes[0])[1])[1] == "horner_method"
+    except Unrecognised:
+        okr = okp = False
+    ctx.ob(rule, "central_moments/k-range", okr and okp, cms.where(), "entries 2..=order are pushed in increasing k after [one, zero]" if okr and okp else
+           "bulk loop is not `for k in 2..=order { push(horner(..)) }`", what="bulk moments not in order k")
+    # prefix independence of `moments`: the k-th pushed raw moment does not depend on `order`
+    mo = prog.find("summary_statistics::means::moments")
+    tm = prog.tracked(mo)
+    okm = False
+    detail = "anchor not recognised"
+    try:
+        lpm = T.Loop(tm)
+        itm = lpm.iterator()
+        item = ds(itm[1])
+        pushes = [pb for pb, t in tm.calls() if callee_name(t) == "push" and pb in lpm.blocks]
+        if len(pushes) == 1:
+            pushed = ds(tm.call_arg_exprs(pushes[0])[1])
+            refs_order = any(x[:2] == ("param", 2) for x in walk(pushed) if isinstance(x, tuple))
+            uses_k = False
+            for x in walk(pushed):
+                if x[0] == "agg" and x[1] == "closure":
+                    uses_k = any(ds(f) == item or any(ds(y) == item for y in walk(f)) for f in x[3])
+            okm = not refs_order and uses_k
+            detail = "the k-th raw moment is Σ x^k / n with k the loop variable only (independent of the requested order)" if okm else \
+                "pushed raw moment `%s` depends on `order` or not on k" % fmt(pushed)[:120]
+    except Unrecognised as ex:
+        detail = "anchor not recognised: %s" % ex
+    ctx.ob(rule, "moments/prefix-independent", okm, mo.where(), detail, what="raw moment k depends on the requested order")
+
+
+def rule_c18_quantiles(ctx, prog, rule="R13"):
+    qa = prog.method("QuantileExt", "quantile_axis_mut")
+    # .map(|a| a.index_axis_move(axis, 0))
+    ok = False
+    detail = "no map(closure) on the bulk result"
+    r = ds(qa.return_expr())
+    if r[0] == "call" and r[1] == "map":
+        cb, ups = closure_of(prog, r[3][1])
+        if cb is not None:
+            cr = ds(cb.return_expr())
+            if cr[0] == "call" and cr[1] == "index_axis_move" and cr[3][0][:2] == ("param", 2):
+                pb, ax = up(prog, cb, cr[3][1])
+                ok = ds(ax)[:2] == ("param", 2) and pb.key == qa.key and ds(cr[3][2]) == ("const", "usize", 0)
+                detail = "single = bulk with [q], then index_axis_move(axis, 0) along the caller's axis" if ok else \
+                    "the single-q result is taken with index_axis_move(%s, %s)" % (fmt(ds(ax)), fmt(ds(cr[3][2])))
+    ctx.ob(rule, "quantile_axis_mut/removes-the-q-axis", ok, qa.where(), detail, what="single quantile is not slice 0 of the bulk result along axis")
+    qm = prog.method("Quantile1dExt", "quantile_mut")
+    finals = [ds(qm.def_expr(0, d)) for d in qm.reaching_defs(0, qm.exits()[0], "term")]
+    ok = any(isinstance(f, tuple) and f[0] == "agg" and f[2] == "Ok" and ds(f[3][0])[0] == "call" and ds(f[3][0])[1] == "into_scalar"
+             and unwrap_try(ds(f[3][0])[3][0])[1] == "quantile_axis_mut" for f in finals)
+    ctx.ob(rule, "quantile_mut/into_scalar", ok, qm.where(), "= quantile_axis_mut(Axis(0), q, interpolate)?.into_scalar()" if ok else
+           "1-D single quantile is not the scalar of the axis form", what="1-D wrapper differs")
+    # the bulk closure: j-th output ↔ j-th q, push and lookup guarded by the same predicates
+    inner = prog.find("QuantileExt<A, S, D>>::quantiles_axis_mut::quantiles_axis_mut")
+    clos = prog.closures_of(inner)
+    lane = [c for c in clos if any(callee_name(t) == "get_many_from_sorted_mut_unchecked" for _, t in c.calls())]
+    ok = len(lane) == 1
+    if ok:
+        c = lane[0]
+        # needs_lower/needs_higher/lower_index/higher_index argument agreement between the collecting loop and the lookup
+        def sig(b):
+            out = set()
+            for bb, t in b.calls():
+                nm = callee_name(t)
+                if nm in ("needs_lower", "needs_higher", "lower_index", "higher_index"):
+                    args = []
+                    for a in b.call_arg_exprs(bb):
+                        pb, pe = up(prog, b, a)
+                        pe = ds(pe)
+                        # q: an element of an iteration over qs ; axis_len: len_of(data, axis)
+                        if any(x[0] == "call" and x[1] == "next" for x in walk(pe) if isinstance(x, tuple)):
+                            args.append("q-element")
+                        else:
+                            args.append(fmt(canon_expr(prog, pb, pe))[:60])
+                    out.add((nm, tuple(args)))
+            return out
+        s_collect, s_lookup = sig(inner), sig(c)
+        ok = s_collect == s_lookup and len(s_collect) == 4
+        ctx.ob(rule, "quantiles_axis_mut/push-lookup-agree", ok, c.where(),
+               "indexes are collected and looked up under the same needs_lower/needs_higher(q, axis_len) and lower/higher_index(q, axis_len)" if ok else
+               "collection uses %s, lookup uses %s" % (sorted(s_collect), sorted(s_lookup)), what="bulk quantile looks up an index it did not select")
+    else:
+        ctx.ob(rule, "quantiles_axis_mut/push-lookup-agree", False, inner.where(), "anchor not recognised: lane closure not found", what="anchor not recognised")
